@@ -469,6 +469,10 @@ func checkC10(w *World, r *Report) {
 	iv := newInv(w, r, "C10.inventory", c10Vetted)
 	iv.Run(flatten(ro.BLK), "BLK")
 	iv.Finish()
+	if w.Tier == "thorough" {
+		r.Rule("C10.discovery", "P4", "thorough tier: every distinct dependency function called on the block trees is either an inventory class or in the reviewed table (the allow-list is closed)", 60)
+		iv.Discover(flatten(ro.BLK), "C10.discovery", "BLK")
+	}
 
 	// ---------- C10.maybenil ----------
 	nfs := w.mayBeNilFields(flatten(ro.EXPORT))
